@@ -1088,3 +1088,25 @@ m('c01-mulassign-negate-shortcut-on-unsigned', ['C01', 'C19'], 'MulAssign<u', [
                 } else {
                     *self *= BigDecimal::from(rhs);""")],
   '*= -1 shortcut written with wrapping_neg in a macro that is also instantiated for unsigned types (MAX.wrapping_neg() == 1)')
+m('c15-is-integer-small-magnitude-fast-path', ['C15'], 'BigDecimal::is_integer:table', [
+  ('src/lib.rs', """        if self.scale <= 0 {
+            true
+        } else {
+            (self.int_val.clone() % ten_to_the(self.scale as u64)).is_zero()""", """        if self.scale <= 0 {
+            true
+        } else if self.digits() < self.scale as u64 {
+            false
+        } else {
+            (self.int_val.clone() % ten_to_the(self.scale as u64)).is_zero()""")],
+  'is_integer answers false when there are fewer digits than fraction places: wrong for zero (digits() == 1)')
+m('c15-is-integer-one-digit-fast-path', ['C15'], 'BigDecimal::is_integer:table', [
+  ('src/lib.rs', """        if self.scale <= 0 {
+            true
+        } else {
+            (self.int_val.clone() % ten_to_the(self.scale as u64)).is_zero()""", """        if self.scale <= 0 {
+            true
+        } else if self.digits() > self.scale as u64 + 2 {
+            true
+        } else {
+            (self.int_val.clone() % ten_to_the(self.scale as u64)).is_zero()""")],
+  'is_integer answers true for every value with more digits than fraction places plus two (e.g. 12.3)')
